@@ -277,6 +277,8 @@ def step(spec, st, port, v, nports=1):
         return st, [V(v.val[pk], v.prov)]
     if k == "collect":
         return st + (v,), []
+    if k == "sinktxt":     # map(str).sink_to_textfile(f, end="|"): what is written, per element
+        return st, [V(str(v.val) + "|", v.prov)]
     if k == "sinkf":       # a sink calling a user function; emits nothing
         if spec[1] == "rec3":           # sink(rec3, "t", k=1)
             FUNCS["rec3"](v.val, "t", k=1)
